@@ -76,7 +76,7 @@ def r1(text):
 @rule("R4", "Mutex critical section -> atomic block on the protected value: `let mut l = X.lock().expect(\"not poisoned\");` -> "
             "`let l = &mut X;` (also the two-statement form `let shared = &self.shared; let mut l = shared.lock()...`); "
             "`X.lock().expect(..)` in expression position -> `(&X)`; `drop(l);` deleted; `Arc::new(Mutex::new(V))` -> `V`.  "
-            "Assumed: std::sync::Mutex gives mutual exclusion and is never poisoned; Arc::clone yields a handle to the same value.")
+            "Assumed: std::sync::Mutex gives mutual exclusion and is never poisoned; Arc::clone yields a handle to the same value.  The reading is 'one critical section per call = one atomic step of the system model'; a function that takes the lock more than once is outside it and is handed to the bounded native stand-in (exit 2 unless that finds a failing schedule).")
 def r4(text):
     t, n0 = re.subn(r"let\s+shared\s*=\s*&self\.shared;(\s*)let\s+mut\s+(\w+)\s*=\s*shared\.lock\(\)\.expect\(\"not poisoned\"\);", r"\1let \2 = &mut self.shared;", text)
     t, n1 = re.subn(r"let\s+mut\s+(\w+)\s*=\s*([\w\.]+)\.lock\(\)\.expect\(\"not poisoned\"\);", r"let \1 = &mut \2;", t)
